@@ -48,6 +48,27 @@ class CandleDigestMonitor:
         self.first = False
 
 
+class FeedAheadMonitor:
+    """C01, structural clause: at a hook of a route, no OTHER symbol may have been fed candles beyond the route's own
+    symbol (the simulators feed every symbol the same minute / chunk before any strategy runs; inside one symbol's
+    matching the symbols fed later are still behind).  A symbol fed ahead is readable future - and it would also
+    push the feed horizon that bounds the prefix comparison, hiding itself from it."""
+
+    def session_begin(self, c, spec, full_candles):
+        self.fast = int(bool(spec.get('fast')))
+
+    def hook(self, c, strat, hook, extra):
+        own = c.horizon.get(strat.symbol)
+        if own is None:
+            return
+        c.count('c01_feed_order_checks')
+        for s, h in c.horizon.items():
+            if s != strat.symbol and h > own:
+                c.violate('C01', 'fed-ahead', f'C01|another-symbol-fed-beyond-the-candles-of-the-running-route|fast={self.fast}',
+                          {'route_symbol': strat.symbol, 'fed_until': own, 'other': s, 'other_fed_until': h, 'minutes_ahead': (h - own) / 60000, 'hook': hook})
+                return
+
+
 def _run_side(arg):
     spec, candles, monitors_factory = arg
     fc = {s: np.array(a, dtype=np.float64) for s, a in candles.items()}
@@ -58,7 +79,8 @@ def _run_side(arg):
                             for k in ('symbol', 'type', 'qty', 'entry_price', 'exit_price', 'opened_at', 'closed_at', 'fee', 'PNL')))
     return {'trace': c.trace, 'status': out['status'], 'exc': out.get('exc'), 'where': out.get('where'),
             'exc_type': out.get('exc_type'), 'counters': dict(c.counters), 'events': len(c.trace),
-            'metrics': R.jsonable((out.get('result') or {}).get('metrics')), 'tb': out.get('tb'), 'trades': trades}
+            'metrics': R.jsonable((out.get('result') or {}).get('metrics')), 'tb': out.get('tb'), 'trades': trades,
+            'violations': R.jsonable(c.violations[:20])}
 
 
 def run_side(spec, fc, monitors_factory):
@@ -84,7 +106,7 @@ class FutureReplacementCheck(BaseCheck):
             setattr(self, k, v)
 
     def monitors(self):
-        return [CandleDigestMonitor()]
+        return [CandleDigestMonitor(), FeedAheadMonitor()]
 
     def make_pair(self, seed):
         pf = self.profile(Stream(seed, 'profile')) if callable(self.profile) else self.profile
@@ -174,6 +196,12 @@ class FutureReplacementCheck(BaseCheck):
                 res['violations'].append({'property': 'C01', 'clause': 'session-aborted',
                                           'fingerprint': f"C01|session-aborted|{X.get('exc_type')}|{X.get('where')}|fast={int(specA['fast'])}",
                                           'detail': {'side': side, 'exc': X.get('exc'), 'tb': X.get('tb')}, 'seq': 0, 'horizon': -1})
+        seen_fp = set()
+        for v in (A.get('violations') or []) + (B.get('violations') or []):
+            if v.get('property') == 'C01' and v['fingerprint'] not in seen_fp:
+                seen_fp.add(v['fingerprint'])
+                res['violations'].append({'property': 'C01', 'clause': v.get('clause'), 'fingerprint': v['fingerprint'],
+                                          'detail': v.get('detail'), 'seq': v.get('seq', 0), 'horizon': v.get('horizon', -1)})
         if d is not None:
             ea = pa[d] if d < len(pa) else None
             eb = pb[d] if d < len(pb) else None
